@@ -411,6 +411,13 @@ class Interp:
                     return mem[name]
             if name == "__name__":
                 return obj.name
+            if name == "__getitem__" and self.is_enum_class(obj.name):
+                def by_name(key, _cls=obj.name):
+                    mem = self.enum(_cls)
+                    if key not in mem:
+                        raise Raised("KeyError", repr(key))
+                    return mem[key]
+                return ("native", by_name)
             if name == "__wrapped__":
                 return obj
             if name == "_value2member_map_" and self.is_enum_class(obj.name):
@@ -464,7 +471,7 @@ class Interp:
             return ("native", val) if callable(val) else val
         if isinstance(obj, SetVal):
             return ("pymethod", obj, name)
-        if isinstance(obj, (list, tuple, dict, set, str)) and hasattr(obj, name):
+        if isinstance(obj, (list, tuple, dict, set, str, bytes, int)) and hasattr(obj, name):
             return ("pymethod", obj, name)
         import re as _re
         if type(obj).__module__ in ("uuid", "_hashlib", "hashlib", "_md5", "logging", "collections") and hasattr(obj, name):
@@ -1431,7 +1438,7 @@ class Interp:
                 if isinstance(args[0], HashOrdered) and not args[0].settled and len(args[0]) > 1:
                     return Opaque("join of a list built from a set depends on hash order")
                 items = self.iterate(args[0])
-                if all(isinstance(a, str) for a in items):
+                if all(isinstance(a, type(o)) for a in items):
                     return o.join(items)
                 return Opaque("str")
             if name in ("extend", "update") and args and isinstance(args[0], _Gen):
